@@ -81,7 +81,7 @@ theorem stepPlayer_frame (cfg : Cfg) (s s' : State) (i : Nat) (h : stepPlayer cf
   split at h
   · cases h
   · simp only at h
-    split at h <;> (try split at h) <;> (try cases h) <;> simp [setP]
+    split at h <;> (try split at h) <;> (try split at h) <;> (try cases h) <;> simp [setP]
 
 theorem mem_nextCmd_log_of_mem (e : Ev) (sc : List Cmd) : ∀ (X : State),
     e ∈ X.log → e ∈ (nextCmd X sc).log := by
